@@ -8,6 +8,7 @@ leaf-wise by the harness (tomllib), never by AEIC's deep_update.
 from __future__ import annotations
 
 import copy
+import os
 import tomllib
 from pathlib import Path
 
@@ -65,7 +66,8 @@ def _paths():
             'performance/random_test_ptf.toml',
         ],
         'engine_file': ['engines/sample_edb.xlsx', str(data / 'engines' / 'sample_edb.xlsx')],
-        'weather_data_dir': ['weather', str(core.TEST_DATA / 'weather'), str(data / 'fuels')],
+        # 'cwd_wx' exists only relative to the current directory (the machine runs inside its scratch directory)
+        'weather_data_dir': ['weather', str(core.TEST_DATA / 'weather'), str(data / 'fuels'), 'cwd_wx'],
     }
 
 
@@ -210,6 +212,9 @@ class ConfigMachine(LoggedMachine):
             (core.REPO / 'src' / 'AEIC' / 'data' / 'default_config.toml').read_text()
         )
         self.dir = self.ctx.fresh_dir()
+        (self.dir / 'cwd_wx').mkdir(exist_ok=True)
+        self.old_cwd = os.getcwd()
+        os.chdir(self.dir)
         self.nfile = 0
         self.files = []
         self.failed_load_since = False
@@ -218,6 +223,7 @@ class ConfigMachine(LoggedMachine):
     def teardown(self):
         from AEIC.config import Config
 
+        os.chdir(self.old_cwd)
         Config.reset()
         if self.flags & {'failed_then_valid', 'split_table', 'file_reused'}:
             self.ctx.mark_nontrivial({'log': self.log})
